@@ -11,7 +11,7 @@ import warnings
 
 import numpy as np
 
-from sim import core, seams
+from sim import core, seams, common
 from sim.core import Violation
 from sim.models import (PRBS_TAPS, RefLFSR, effective_seed, gf2_identity, gf2_pow, gf2_apply, gf2_rank,
                         companion_from_statement, prime_factors)
@@ -118,7 +118,7 @@ def generate(seed, tier):
     crash_w = rng.choice([0, 2, 5])
     filt_w = rng.choice([0, 1, 2])
     weights = {"gen": 10, "peek": 2, "checkpoint": 4, "crash": crash_w, "bad": 2, "filters": filt_w, "open": 1,
-               "default_len": 1}
+               "default_len": 1, "leak": rng.choice([0, 0, 1])}
     kinds = [k for k, w in weights.items() for _ in range(w)]
     order = ops[0]["order"]
     for _ in range(rng.randint(8, 45)):
@@ -135,6 +135,8 @@ def generate(seed, tier):
             ops.append({"op": "bad", "what": rng.choice(BAD)})
         elif k == "filters":
             ops.append({"op": "filters", "mode": rng.choice(["default", "ignore", "always", "once"])})
+        elif k == "leak":
+            ops.append({"op": "leak", "upto": rng.choice([40, 70, 140, 300]), "every": rng.choice([1, 1, 1, 3])})
         else:
             ops.append({"op": k})
     return {}, ops
@@ -405,6 +407,28 @@ class Consumer:
                                         f"{'/'.join(a.__name__ for a in allowed)}", f"args/{what}")
         raise Violation("C04/args", f"invalid call {what} was accepted and returned {type(out).__name__}",
                         f"args/{what}")
+
+    def leak(self, op):
+        """Rejected calls pile up on the library's timer stack; a valid resumed request must keep working and keep
+        returning the same bits at every depth."""
+        if self.ref is None:
+            return "skip"
+
+        def reject():
+            try:
+                self.PRBS(order=8, len=10)
+            except ValueError:
+                pass
+
+        def valid():
+            out, _ = self._call(order=self.order, len=5, seed=self._seed_arg(), return_seed=True)
+            bits = self._check_bits(out[0], 5, "leak")
+            exp = RefLFSR(self.order, self.ref.state).bits(5)
+            if not np.array_equal(bits, exp):
+                raise Violation("C04/stream", f"leak/order{self.order}: resumed bits differ from the reference at "
+                                              f"timer-stack depth {seams.timer_stack_depth()}", "stream/leak")
+            return (core.array_digest(bits), int(out[1]))
+        return common.leak_sweep(reject, valid, op["upto"], "C04/state", self.rec, op.get("every", 1), "PRBS request")
 
     def filters(self, op):
         warnings.simplefilter(op["mode"])
